@@ -111,6 +111,21 @@ var (
 	OnCall  func(Call)
 )
 
+// ---- simulated file times -------------------------------------------------------------------------------
+// File modification times are part of what a generator could look at ("skip if up to date"). They come from
+// a simulated clock that advances one second per touching event, so runs stay a pure function of the tape.
+
+var simClock = time.Date(2026, 1, 2, 3, 0, 0, 0, time.UTC)
+
+// ResetClock restarts the simulated file clock (start of a run).
+func ResetClock() { simClock = time.Date(2026, 1, 2, 3, 0, 0, 0, time.UTC) }
+
+// Touch stamps path with the next simulated time (used by the shim after writes and by the harness for user files).
+func Touch(path string) {
+	simClock = simClock.Add(time.Second)
+	os.Chtimes(path, simClock, simClock)
+}
+
 var errDead = errors.New("simos: process is dead (injected crash)")
 
 // Reset prepares the shim for a new step.
@@ -276,8 +291,9 @@ func simple(op, path string, fn func() error) error {
 // ---- files --------------------------------------------------------------------------------
 
 type File struct {
-	f    *os.File
-	name string
+	f       *os.File
+	name    string
+	written bool
 }
 
 func OpenFile(name string, flag int, perm FileMode) (*File, error) {
@@ -289,7 +305,10 @@ func OpenFile(name string, flag int, perm FileMode) (*File, error) {
 		}
 		return nil, err
 	}
-	f := &File{f: rf, name: name}
+	f := &File{f: rf, name: name, written: flag&(O_CREATE|O_TRUNC|O_WRONLY|O_RDWR|O_APPEND) != 0}
+	if f.written {
+		Touch(name)
+	}
 	mu.Lock()
 	open[f] = true
 	mu.Unlock()
@@ -333,6 +352,7 @@ func (f *File) write(op string, b []byte, w func([]byte) (int, error)) (int, err
 		return n, err
 	}
 	n, err := w(b)
+	Touch(f.name)
 	done(a, c, err)
 	mu.Unlock()
 	return n, err
@@ -409,7 +429,9 @@ func ReadDir(name string) (des []DirEntry, err error) {
 }
 func Remove(name string) error    { return simple("remove", name, func() error { return os.Remove(name) }) }
 func RemoveAll(name string) error { return simple("removeall", name, func() error { return os.RemoveAll(name) }) }
-func Rename(o, n string) error    { return simple("rename", n, func() error { return os.Rename(o, n) }) }
+func Rename(o, n string) error {
+	return simple("rename", n, func() error { return os.Rename(o, n) })
+}
 func Mkdir(name string, perm FileMode) error {
 	return simple("mkdir", name, func() error { return os.Mkdir(name, perm) })
 }
